@@ -24,6 +24,7 @@ from typing import Any
 from sim import ipcsim, kit
 
 PROP = "C16"
+FAMILY = {"S": 6000, "F": 20000, "C": 8000}  # finite sampled families (members are independent of VERIF_SEED)
 
 BASE_FILES = {
     "a.py": "import b\nimport c\nx: int = b.f()\ny: str = c.K().attr\n",
@@ -423,7 +424,7 @@ def scenario_task(item: tuple[str, int, dict[str, Any]]) -> dict[str, Any]:
             "exit_" + str(v["exit_path"]): 1,
             "verified_requests_after_fault": v["verified_after_fault"],
         }
-        if k < 2:
+        if k % 100 == 0:
             out["sample"] = {"family": family, "ops": scn["ops"][:8], "timeout": scn.get("timeout")}
     else:
         out["violation"] = {"scenario": scn, "violation": v["violation"], "family": family}
@@ -438,7 +439,7 @@ def framing_task(k: int) -> dict[str, Any]:
     import mypy.dmypy_util as du
     import mypy.ipc as ipc
 
-    rng = kit.rng_for(PROP, "framing", k)
+    rng = kit.family_rng(PROP, "framing", k)
     MAXR = ipc.MAX_READ
     sizes_pool = [1, 2, 3, 4, 5, 7, 64, 255, 256, 4095, 65536, MAXR - 5, MAXR - 4, MAXR - 1, MAXR, MAXR + 1, 2 * MAXR + 3]
     nframes = rng.randint(1, 6)
@@ -598,7 +599,7 @@ def client_task(k: int) -> dict[str, Any]:
     import mypy.dmypy.client as client
     import mypy.ipc as ipc
 
-    rng = kit.rng_for(PROP, "client", k)
+    rng = kit.family_rng(PROP, "client", k)
     nout = rng.randint(0, 4)
     parts: list[dict[str, Any]] = []
     for i in range(nout):
@@ -736,16 +737,16 @@ def build_items(tier: str) -> tuple[list[Any], dict[str, int]]:
             k += 1
     sizes["E"] = k
     # S: seeded sequences
-    n_s = 250 if tier == "quick" else 6000
-    for k in range(n_s):
-        items.append(("S", k, gen_sequence(kit.rng_for(PROP, "S", k))))
+    n_s = 250 if tier == "quick" else FAMILY["S"]
+    for k in kit.sample_indices(PROP, "S", FAMILY["S"], n_s):
+        items.append(("S", k, gen_sequence(kit.family_rng(PROP, "S", k))))
     sizes["S"] = n_s
-    n_f = 400 if tier == "quick" else 20000
-    for k in range(n_f):
+    n_f = 400 if tier == "quick" else FAMILY["F"]
+    for k in kit.sample_indices(PROP, "F", FAMILY["F"], n_f):
         items.append(("F", k))
     sizes["F"] = n_f
-    n_c = 150 if tier == "quick" else 8000
-    for k in range(n_c):
+    n_c = 150 if tier == "quick" else FAMILY["C"]
+    for k in kit.sample_indices(PROP, "C", FAMILY["C"], n_c):
         items.append(("C", k))
     sizes["C"] = n_c
     return items, sizes
